@@ -59,6 +59,9 @@ type vf10Case struct {
 	// optional: the environment without the variables under test; the case is then loaded a second
 	// time with it and the observation says whether both loads gave the same configuration
 	BaseEnv *map[string]string `json:"baseEnv,omitempty"`
+	// history runs: the case continues the process state left by the previous case (same environment),
+	// nothing is reset in between
+	Keep bool `json:"keep"`
 }
 
 type vf10I64 struct {
@@ -464,7 +467,9 @@ func vf10RunCase(c *vf10Case, dir string) vf10Obs {
 				os.Unsetenv(k)
 			}
 		}()
-		defaultAuthInternalUsers = vf10PristineUsers()
+		if !c.Keep {
+			defaultAuthInternalUsers = vf10PristineUsers()
+		}
 		before := vf10UsersJSON()
 		panicked, msg = verifrt.Catch(func() {
 			cf, _, err = Load(fp, nil, nil)
@@ -500,15 +505,14 @@ func vf10RunCase(c *vf10Case, dir string) vf10Obs {
 			obs.Same = reflect.DeepEqual(cf, cf2)
 		}
 	}
-	defaultAuthInternalUsers = vf10PristineUsers()
 	return obs
 }
 
 // ---------------------------------------------------------------------------- child / parent
 
-func vf10ReadCases(t testing.TB) []vf10Case {
+func vf10ReadCasesFile(t testing.TB, path string) []vf10Case {
 	var cases []vf10Case
-	verifrt.ForEachCase(t, func(raw []byte) {
+	verifrt.ForEachCaseFile(t, path, func(raw []byte) {
 		var c vf10Case
 		verifrt.Decode(t, raw, &c)
 		cases = append(cases, c)
@@ -529,7 +533,7 @@ func TestVerif_C10_Child(t *testing.T) {
 	}
 	defer f.Close()
 	dir := t.TempDir()
-	cases := vf10ReadCases(t)
+	cases := vf10ReadCasesFile(t, os.Getenv("VERIF_C10_CASES"))
 	for i := skip; i < len(cases); i++ {
 		fmt.Fprintf(f, "{\"start\":%d}\n", cases[i].ID)
 		obs := vf10RunCase(&cases[i], dir)
@@ -540,9 +544,20 @@ func TestVerif_C10_Child(t *testing.T) {
 
 // TestVerif_C10_Run is the parent: it runs children until every case has an observation.
 func TestVerif_C10_Run(t *testing.T) {
-	out := verifrt.NewOut(t)
+	vf10Parent(t, os.Getenv("VERIF_CASES"), os.Getenv("VERIF_OUT"))
+}
+
+// TestVerif_C10_History is the same parent for the history sequences: the steps of all sequences are
+// executed in order by ONE child process (restarted only if it dies), so that whatever a load leaves
+// behind in the process is there for the next one.
+func TestVerif_C10_History(t *testing.T) {
+	vf10Parent(t, verifrt.ParamS("HISTIN", ""), verifrt.ParamS("HISTOUT", ""))
+}
+
+func vf10Parent(t *testing.T, casesPath string, outPath string) {
+	out := verifrt.NewOutFile(t, outPath)
 	defer out.Close()
-	cases := vf10ReadCases(t)
+	cases := vf10ReadCasesFile(t, casesPath)
 	index := map[int]int{}
 	for i, c := range cases {
 		index[c.ID] = i
@@ -560,7 +575,8 @@ func TestVerif_C10_Run(t *testing.T) {
 			}
 			cmd.Env = append(cmd.Env, kv)
 		}
-		cmd.Env = append(cmd.Env, "VERIF_C10_CHILD=1", "VERIF_C10_SKIP="+strconv.Itoa(skip), "VERIF_C10_CHILDOUT="+childOut)
+		cmd.Env = append(cmd.Env, "VERIF_C10_CHILD=1", "VERIF_C10_SKIP="+strconv.Itoa(skip), "VERIF_C10_CHILDOUT="+childOut,
+			"VERIF_C10_CASES="+casesPath)
 		var stderr bytes.Buffer
 		cmd.Stdout = &stderr
 		cmd.Stderr = &stderr
@@ -731,6 +747,12 @@ func TestVerif_C10_Files(t *testing.T) {
 			vf10Case
 			Init    vf10File  `json:"init"`
 			InitEnc []vf10Enc `json:"initEnc"`
+			// history: the contents submitted one after the other (the case's own file when empty)
+			Seq []struct {
+				Same bool      `json:"same"` // the case's own content
+				File vf10File  `json:"file"`
+				Enc  []vf10Enc `json:"enc"`
+			} `json:"seq"`
 		}
 		verifrt.Decode(t, raw, &c)
 		byts, _, err := vf10FileBytes(&c.vf10Case)
@@ -742,10 +764,24 @@ func TestVerif_C10_Files(t *testing.T) {
 		if err != nil {
 			t.Fatalf("case %d: %v", c.ID, err)
 		}
+		files := []string{}
+		for k, st := range c.Seq {
+			if st.Same {
+				files = append(files, base64.StdEncoding.EncodeToString(byts))
+				continue
+			}
+			sc := vf10Case{ID: c.ID + 1000000*(k+1), File: st.File, Enc: st.Enc}
+			sb, _, serr := vf10FileBytes(&sc)
+			if serr != nil {
+				t.Fatalf("case %d: %v", c.ID, serr)
+			}
+			files = append(files, base64.StdEncoding.EncodeToString(sb))
+		}
 		out.Emit(map[string]any{
 			"id": c.ID, "env": c.Env,
 			"init": base64.StdEncoding.EncodeToString(ibyts),
 			"file": base64.StdEncoding.EncodeToString(byts),
+			"files": files,
 		})
 	})
 }
